@@ -135,7 +135,11 @@ def run(tier, seed, log, prop=PROP, mode=MODE, rule=None):
     return rep.finish(confirm=sys.modules[f"egmc.props.{prop.lower()}"].replay, **extra)
 
 
-RULE = ("every ordered multigraph of each space; per state every start x universe (None and subsets containing "
+RULE = ("(plus, per state: every traversal from every start OUTSIDE the universe -- no non-member may be listed; a "
+        "membership-edit leg with caching on -- aborted traversals first, then each vertex taken out of and put back "
+        "into a universe of all vertices, from either side, all traversals from every start in each phase vs the "
+        "reach oracle; and the first space again with falsy vertices) "
+        "every ordered multigraph of each space; per state every start x universe (None and subsets containing "
         "the start) x 3 directions x unknown modes x ff_via filters (and ff_result filters when ff_via is None) "
         "x 3 traversals: list form vs reach closure (no repetition, starts with start, exact set, ff_result only "
         "removes), generator form vs list form, NotImplementedError propagation, termination; non-trivial = more "
